@@ -26,8 +26,11 @@ UIDS = ["u1", "u2"]
 
 
 def ics(uid, n):
+    # version 1 carries multi-valued properties in a non-sorted order (C14: what is stored is
+    # the normalised upload, whatever the server computed on the way - e.g. the commit message)
+    extra = "" if n == 0 else "CATEGORIES:zeta\r\nCATEGORIES:alpha\r\nATTENDEE:mailto:z@example.com\r\nATTENDEE:mailto:a@example.com\r\n"
     return (f"BEGIN:VCALENDAR\r\nVERSION:2.0\r\nPRODID:-//x//y//EN\r\nBEGIN:VEVENT\r\nUID:{uid}\r\n"
-            f"DTSTAMP:20200101T000000Z\r\nDTSTART:20200101T000000Z\r\nSUMMARY:v{n}\r\nEND:VEVENT\r\nEND:VCALENDAR\r\n")
+            f"DTSTAMP:20200101T000000Z\r\nDTSTART:20200101T000000Z\r\nSUMMARY:v{n}\r\n{extra}END:VEVENT\r\nEND:VCALENDAR\r\n")
 
 
 def alphabet():
@@ -189,6 +192,12 @@ def run_history(backend, hist):
                 if outcome == "ok":
                     if rn != name:
                         return fail((f"returned name {name}", rn), step)
+                    from xandikos.icalendar import ICalendarFile
+
+                    fresh = b"".join(ICalendarFile([body], "text/calendar").normalized())
+                    stored = b"".join(s._get_raw(name, retag))
+                    if stored != fresh:
+                        return fail(("the stored bytes are the normalised upload (C14)", f"stored {stored[-160:]!r}"), step)
                     if cur is not None and cur != retag:
                         stale[name] = cur
                     changed = cur != retag
